@@ -67,6 +67,13 @@ pub enum Ev {
     Frame(usize, usize, bool),
     /// literal bytes (port, hex, event interface)
     Raw(usize, String, bool),
+    /// literal bytes on the event interface with an explicit receive timestamp
+    /// (decimal string of 2^-32 ns units)
+    RawAt(usize, String, String),
+    /// oldest pending transmit timestamp reported with an explicit value
+    TxTsAt(usize, String),
+    /// the clock's `now()` reading from here on (2^-32 ns units)
+    ClockNow(String),
 }
 
 #[derive(Clone, Debug)]
@@ -315,7 +322,7 @@ impl<'a> Run<'a> {
     pub fn enabled_obedient(&self, ev: &Ev) -> bool {
         match *ev {
             Ev::T(p, t) => self.hosts[p].armed[t as usize],
-            Ev::TxTs(p) | Ev::DropTs(p) => !self.hosts[p].pending.is_empty(),
+            Ev::TxTs(p) | Ev::DropTs(p) | Ev::TxTsAt(p, _) => !self.hosts[p].pending.is_empty(),
             _ => true,
         }
     }
@@ -356,9 +363,30 @@ impl<'a> Run<'a> {
                 Ev::TxTs(p) => {
                     *port_ref = Some(p);
                     if let Some((ctx, _)) = me.hosts[p].pending.pop_front() {
+                        SimClock::saw(&me.node.clock, time_ns(me.cfg.tx_ns));
                         let a = collect(me.node.port(p).handle_send_timestamp(ctx, time_ns(me.cfg.tx_ns)));
                         acts_ref.push((p, a));
                     }
+                }
+                Ev::TxTsAt(p, ref bits) => {
+                    *port_ref = Some(p);
+                    if let Some((ctx, _)) = me.hosts[p].pending.pop_front() {
+                        let t = time_bits(bits.parse::<u128>().expect("harness: TxTsAt bits"));
+                        SimClock::saw(&me.node.clock, t);
+                        let a = collect(me.node.port(p).handle_send_timestamp(ctx, t));
+                        acts_ref.push((p, a));
+                    }
+                }
+                Ev::RawAt(p, ref h, ref bits) => {
+                    *port_ref = Some(p);
+                    let t = time_bits(bits.parse::<u128>().expect("harness: RawAt bits"));
+                    SimClock::saw(&me.node.clock, t);
+                    let bytes = unhex(h);
+                    let a = collect(me.node.port(p).handle_event_receive(&bytes, t));
+                    acts_ref.push((p, a));
+                }
+                Ev::ClockNow(ref bits) => {
+                    me.node.clock.borrow_mut().now = time_bits(bits.parse::<u128>().expect("harness: ClockNow bits"));
                 }
                 Ev::DropTs(p) => {
                     *port_ref = Some(p);
@@ -383,6 +411,7 @@ impl<'a> Run<'a> {
                     let (p, bytes, on_event) = me.frame_for(other).expect("harness: frame event");
                     *port_ref = Some(p);
                     let a = if on_event {
+                        SimClock::saw(&me.node.clock, time_ns(me.cfg.rx_ns));
                         collect(me.node.port(p).handle_event_receive(&bytes, time_ns(me.cfg.rx_ns)))
                     } else {
                         collect(me.node.port(p).handle_general_receive(&bytes))
